@@ -143,15 +143,31 @@ def rules(ctx: Ctx) -> None:
             # an unqualified reference over several relations is attributed to every candidate that defines it, never to a guessed first one
             ctx.obligations.append(replace(o, rule="R02.5"))
     fl = flow(prog, eoq)
-    pos = [n for n in prog.walk_fn(eoq) if isinstance(n, ast.Subscript) and u(n.value) == "write_columns" and isinstance(n.ctx, ast.Load)]
-    ok_pos = bool(pos) and all(any(p and t.replace(" ", "") in ("len(write_columns)==len(col_grp)",) for t, p in fl.facts_for(n)) for n in pos)
+    # positional use of the write-column list: a subscript on a local bound from `<holder>.write_columns`
+    def _from_write_columns(name: str) -> bool:
+        return any(kind in ("assign", "walrus") and isinstance(getattr(node, "value", None), ast.Attribute) and node.value.attr == "write_columns" for kind, node in prog.local_defs(eoq, name))
+
+    pos = [n for n in prog.walk_fn(eoq) if isinstance(n, ast.Subscript) and isinstance(n.ctx, ast.Load) and isinstance(n.value, ast.Name) and _from_write_columns(n.value.id) and not isinstance(n.slice, ast.Slice)]
+
+    def _len_eq_enumerated(n: ast.Subscript) -> bool:
+        base = n.value.id
+        iv = n.slice.id if isinstance(n.slice, ast.Name) else None
+        if iv is None:
+            return False
+        over = [u(node.iter.args[0]) for kind, node in prog.local_defs(eoq, iv) if hasattr(node, "iter") and isinstance(node.iter, ast.Call) and u(node.iter.func) == "enumerate" and node.iter.args]
+        return any(p and t.replace(" ", "") == f"len({base})==len({o})" for t, p in fl.facts_for(n) for o in over)
+
+    ok_pos = bool(pos) and all(_len_eq_enumerated(n) for n in pos)
     ctx.ob("R02.1", "write-columns-name-positions-only-when-counts-match", ok_pos, loc(eoq.mod, pos[0]) if pos else eoq.loc(),
            "the explicit / metadata column list names the select positions only when its length equals the number of select items")
     of = prog.try_fn("SqlFluffColumn.of")
     ctx.touched(of)
     alias_first = False
+    # the alias is the second component of the (source columns, alias) pair extracted from the select item
+    alias_names = {name for name in {x.id for x in ast.walk(of.node) if isinstance(x, ast.Name)}
+                   if any(kind == "unpack:1" and isinstance(node, ast.Assign) and isinstance(node.value, ast.Call) and "alias" in u(node.value.func) for kind, node in prog.local_defs(of, name))}
     for n in prog.walk_fn(of):
-        if isinstance(n, ast.If) and u(n.test) == "alias" and any(isinstance(k, ast.Return) and isinstance(k.value, ast.Call) and k.value.args and u(k.value.args[0]) == "alias" for k in n.body):
+        if isinstance(n, ast.If) and isinstance(n.test, ast.Name) and n.test.id in alias_names and any(isinstance(k, ast.Return) and isinstance(k.value, ast.Call) and k.value.args and u(k.value.args[0]) == n.test.id for k in n.body):
             alias_first = True
     ctx.ob("R02.1", "alias-names-the-target-column", alias_first, of.loc(), "a select alias, when present, names the target column before the column's own name is considered")
     # explicit list site and metadata site both exist in the INSERT extractor
